@@ -365,7 +365,7 @@ theorem authorization_dag {g g' : Dag Op} (hwf : g.Wf) (hac : Acyclic g.dependen
     intro c hc
     obtain ⟨n0, h1, h2, _⟩ := hv c hc
     rw [h2]; exact hid _ _ h1
-  refine ⟨rn.value, i0, calls.map (·.2.1.value), ⟨rn, hr, rfl⟩, hi', hs, ?_, ?_⟩
+  refine ⟨rn.value, i0, calls.map (fun (c : Call Op) => c.2.1.value), ⟨rn, hr, rfl⟩, hi', hs, ?_, ?_⟩
   · intro o ho
     obtain ⟨c, hc, rfl⟩ := List.mem_map.mp ho
     obtain ⟨n0, h1, h2, h3⟩ := hv c hc
@@ -739,7 +739,7 @@ theorem authorization_dag {g g' : Dag Op} (hwf : g.Wf) (hac : Acyclic g.dependen
     intro c hc
     obtain ⟨n0, h1, h2, _⟩ := hv c hc
     rw [h2]; exact hid _ _ h1
-  refine ⟨rn.value, p0, calls.map (·.2.1.value), ⟨rn, hr, rfl⟩, hi', hs, ?_, ?_⟩
+  refine ⟨rn.value, p0, calls.map (fun (c : Call Op) => c.2.1.value), ⟨rn, hr, rfl⟩, hi', hs, ?_, ?_⟩
   · intro o ho
     obtain ⟨c, hc, rfl⟩ := List.mem_map.mp ho
     obtain ⟨n0, h1, h2, h3⟩ := hv c hc
